@@ -37,7 +37,7 @@ const c02Wide = `{"openapi":"3.0.3","info":{"title":"w","version":"1"},
  "responses":{"NotFound":{"description":"nf","content":{"application/json":{"schema":{"$ref":"#/components/schemas/Err"}}}},"Created":{"description":"c","headers":{"Location":{"schema":{"type":"string"}},"X-Id":{"schema":{"type":"integer"}}},"content":{"application/json":{"schema":{"$ref":"#/components/schemas/Pet"}}}}},
  "schemas":{
   "Pet":{"type":"object","required":["name","kind"],"x-go-type-skip-optional-pointer":false,"properties":{"name":{"type":"string"},"kind":{"type":"string","enum":["cat","dog","bird"]},"age":{"type":"integer","x-order":2},"tags":{"type":"array","items":{"type":"string"},"x-order":1},"when":{"type":"string","format":"date-time"},"id":{"type":"string","format":"uuid"},"ext":{"$ref":"other.yaml#/components/schemas/Ext"},"t3":{"$ref":"third.yaml#/components/schemas/T"},
-     "custom":{"type":"string","x-go-type":"decimal.Decimal","x-go-type-import":{"path":"github.com/shopspring/decimal"}},"custom2":{"type":"string","x-go-type":"ulid.ULID","x-go-type-import":{"path":"github.com/oklog/ulid","name":"ulid"}},"custom3":{"type":"string","x-go-type":"money.Money","x-go-type-import":{"path":"example.com/money"},"x-oapi-codegen-extra-tags":{"db":"c3","validate":"required","xml":"c"}}}},
+     "custom":{"type":"string","x-go-type":"decimal.Decimal","x-go-type-import":{"path":"github.com/shopspring/decimal"}},"custom2":{"type":"string","x-go-type":"ulid.ULID","x-go-type-import":{"path":"github.com/oklog/ulid","name":"ulid"}},"custom4":{"type":"string","x-go-type":"acmemoney.Money","x-go-type-import":{"path":"example.com/money","name":"acmemoney"}},"custom5":{"type":"string","x-go-type":"refundmoney.Money","x-go-type-import":{"path":"example.com/money","name":"refundmoney"}},"custom3":{"type":"string","x-go-type":"money.Money","x-go-type-import":{"path":"example.com/money"},"x-oapi-codegen-extra-tags":{"db":"c3","validate":"required","xml":"c"}}}},
   "Dog":{"type":"object","required":["petType"],"properties":{"petType":{"type":"string"},"name":{"type":"string"},"bark":{"type":"boolean"},"x":{"type":"object","properties":{"a":{"type":"string"}}}}},
   "Cat":{"type":"object","required":["petType"],"properties":{"petType":{"type":"string"},"lives":{"type":"integer"}}},
   "Bird":{"type":"object","required":["petType"],"properties":{"petType":{"type":"string"},"wings":{"type":"integer"}}},
